@@ -134,6 +134,28 @@ func newLoops(pre map[string]bool) int {
 	return n
 }
 
+// serveIDs returns the ids of the goroutines started by Proxy.Serve (one
+// handler per accepted connection).
+func serveIDs() map[string]bool {
+	m := map[string]bool{}
+	for _, g := range vh.Goroutines() {
+		if strings.HasSuffix(g.Created, "martian/v3.(*Proxy).Serve") {
+			m[g.ID] = true
+		}
+	}
+	return m
+}
+
+func newOf(now, pre map[string]bool) int {
+	n := 0
+	for id := range now {
+		if !pre[id] {
+			n++
+		}
+	}
+	return n
+}
+
 type nullListener struct{ done chan struct{} }
 
 func (l *nullListener) Accept() (net.Conn, error) { <-l.done; return nil, net.ErrClosed }
@@ -488,6 +510,8 @@ func judge(r *vh.Run, c interface{}, st *state) {
 	type key struct{ gen, slot int }
 	groups := map[key][]*obs{}
 	for _, o := range st.obs {
+		// decided here, when every configuration request has been recorded
+		o.Overlap = st.overlapsAccepted(o.TSend, o.TDone)
 		groups[key{o.ConnGen, o.Slot}] = append(groups[key{o.ConnGen, o.Slot}], o)
 	}
 	viol := func(o *obs, sig, what string, extra map[string]interface{}) {
@@ -1350,6 +1374,7 @@ func runScenario(r *vh.Run, c scenCase, s *scenario, skipCensus *bool) {
 			}
 		}
 		gen, _, _ := st.stamp()
+		preServe := serveIDs()
 		for i := 0; i < ph.Open; i++ {
 			cn, err := net.Dial("tcp", g.addr)
 			if err != nil {
@@ -1363,6 +1388,26 @@ func runScenario(r *vh.Run, c scenCase, s *scenario, skipCensus *bool) {
 		}
 		if watchdog {
 			break
+		}
+		// A connection belongs to the configuration generation in force when
+		// the proxy *accepted* it (that is when the listener stamps it and
+		// creates its buckets), which may be well after the dial returned. Wait
+		// until the proxy has started a handler goroutine for every new
+		// connection before anything else (requests, reconfiguration) happens.
+		if ph.Open > 0 {
+			deadline := time.Now().Add(60 * time.Second)
+			for newOf(serveIDs(), preServe) < ph.Open {
+				if time.Now().After(deadline) {
+					r.SetCase(c)
+					r.Inconclusive("the proxy did not accept the new connections within 60 s", nil)
+					watchdog = true
+					break
+				}
+				time.Sleep(2 * time.Millisecond)
+			}
+			if watchdog {
+				break
+			}
 		}
 		active := 0
 		for id := range ph.Reqs {
@@ -1398,7 +1443,6 @@ func runScenario(r *vh.Run, c scenCase, s *scenario, skipCensus *bool) {
 						cc.dead = true
 						return
 					}
-					o.Overlap = st.overlapsAccepted(o.TSend, o.TDone)
 					mu.Lock()
 					st.obs = append(st.obs, o)
 					mu.Unlock()
@@ -1406,16 +1450,26 @@ func runScenario(r *vh.Run, c scenCase, s *scenario, skipCensus *bool) {
 			}(conns[id], reqs)
 		}
 		midOK := true
+		var postDone chan bool
 		if ph.Mid != nil {
 			go func() { wg.Wait(); close(done) }()
 			select {
 			case <-headCh:
 			case <-done:
 			}
-			midOK = st.doPost(r, c, g.h, ph.Mid)
+			// in its own goroutine: the handler takes the write lock of the
+			// shape map and would hang with the connections if they are stuck
+			postDone = make(chan bool, 1)
+			go func() { postDone <- st.doPost(r, c, g.h, ph.Mid) }()
 		}
 		wg.Wait()
-		if !midOK || watchdog || st.isStalled() {
+		if st.isStalled() {
+			break
+		}
+		if postDone != nil {
+			midOK = <-postDone // no response is in flight any more: the handler cannot be blocked
+		}
+		if !midOK || watchdog {
 			break
 		}
 		for _, id := range ph.Close {
@@ -1668,12 +1722,14 @@ func runDirect(r *vh.Run, c scenCase, d *dscenario, skipCensus *bool) {
 			}
 		}(ci, dc)
 	}
+	var postDone chan bool
 	if d.Mid != nil {
 		select {
 		case <-firstWrite:
 		case <-time.After(2 * time.Second):
 		}
-		st.doPost(r, c, h, d.Mid)
+		postDone = make(chan bool, 1)
+		go func() { postDone <- st.doPost(r, c, h, d.Mid) }()
 	}
 	allDone := make(chan struct{})
 	go func() { wg.Wait(); rwg.Wait(); close(allDone) }()
@@ -1709,6 +1765,9 @@ func runDirect(r *vh.Run, c scenCase, d *dscenario, skipCensus *bool) {
 			break
 		}
 	}
+	if postDone != nil {
+		<-postDone
+	}
 	for _, dc := range dcs {
 		dc.cl.Close()
 	}
@@ -1738,7 +1797,6 @@ func runDirect(r *vh.Run, c scenCase, d *dscenario, skipCensus *bool) {
 			payload := append(append([]byte{}, headBytes(dr.ID, dr.HeadLen)...), resource(dr.ID, dr.N)[dr.S:dr.S+dr.L]...)
 			got := dc.rx[minI64(base, rxLen):minI64(base+int64(len(payload)), rxLen)]
 			o.TDone = timeAt(base + int64(len(got)))
-			o.Overlap = st.overlapsAccepted(o.TSend, o.TDone)
 			lastOfStream := base+int64(len(payload)) >= rxLen
 			switch {
 			case int64(len(got)) == 0 && rxLen <= base:
